@@ -323,23 +323,27 @@ def changedParts {τ : Type} [DecidableEq τ] (before after : List τ) : List Pa
 
 /-! ## a small concrete world for `decide`d examples
 
-cells and weights are integers counting tenths; `int` stores whole numbers only (the cast
-truncates toward zero), `float` stores everything -/
+cells and weights are integers counting tenths; `int` stores whole numbers only (the cast rounds
+down to one), `float` stores everything -/
 namespace Ex
 
 inductive Dt | int | float
   deriving DecidableEq, Repr
 
 def castCell : Dt → Int → Int
-  | .int, x => (x.tdiv 10) * 10
+  | .int, x => x / 10 * 10
   | .float, x => x
 
 /-- a column is inferred `int` when every cell is a whole number -/
 def inferCols (n : Nat) (m : List (List Int)) : List Dt :=
   (List.range n).map fun j =>
-    if m.all (fun row => (row.getD j 0).tmod 10 == 0) then Dt.int else Dt.float
+    if m.all (fun row => (row.getD j 0) % 10 == 0) then Dt.int else Dt.float
 
 def env : Env Int Dt := { infer := inferCols, cast := castCell }
+
+/-- the same casts, but inference as numpy/pandas do it for ONE array holding a float: every column
+is float (`to_dict()["matrix"]` of a matrix with an integer and a float criterion is float64) -/
+def envUp : Env Int Dt := { infer := fun n _ => List.replicate n Dt.float, cast := castCell }
 
 /-- 3 alternatives × 2 criteria, an integer criterion next to a float one, labels not sorted -/
 def dm : Parts Int Dt :=
@@ -347,7 +351,7 @@ def dm : Parts Int Dt :=
     dtypes := [.int, .float], alternatives := ["b", "a", "c"], criteria := ["z", "y"] }
 
 def double (m : List (List Int)) : List (List Int) := m.map fun r => r.map (· * 2)
-def halve (w : List Int) : List Int := w.map (·.tdiv 2)
+def halve (w : List Int) : List Int := w.map (· / 2)
 /-- negate the columns the mask names -/
 def negate (m : List (List Int)) (mask : List Bool) : List (List Int) :=
   m.map fun r => List.zipWith (fun (b : Bool) x => if b then -x else x) mask r
